@@ -21,8 +21,11 @@ VARIABLES l, fs, objs, errloc, diverged,
           gposts,      \* process-wide drop-in postfix list (econf_set_conf_dirs); <<>> = default
           sec,         \* TRUE while a process-wide restriction may be in force (not modelled here: Security.tla)
           lw,          \* the last econf_writeFile: [path, known] - the snapshot that follows must show the predicted bytes
-          unk          \* paths written from an Opaque object: they exist, their content is not predicted (until a snapshot shows it)
-vars == <<l, fs, objs, errloc, diverged, gposts, sec, lw, unk>>
+          unk,         \* paths written from an Opaque object: they exist, their content is not predicted (until a snapshot shows it)
+          wt           \* paths whose content in `fs` is the specification's RENDERING of a written object (no snapshot of the real
+                       \* bytes yet) -> the delimiter / comment character it was written with: such a file is only predicted when it
+                       \* is read back with the same characters (C07: the configuration survives, the layout is the writer's choice)
+vars == <<l, fs, objs, errloc, diverged, gposts, sec, lw, unk, wt>>
 Handles == 0..63
 Opaque == [opaque |-> TRUE]
 NoObjs == [h \in Handles |-> Null]
@@ -30,9 +33,9 @@ EmptyFs == [p \in {} |-> <<>>]
 \* errloc.valid: the record is only specified after a read that FAILED with a parse error (C13); after a successful
 \* read it holds whatever the last scanned line happened to be (an empty file does not even reset the line number)
 NoLoc == [file |-> <<>>, line |-> 0, valid |-> FALSE]
-NoWrite == [path |-> <<>>, known |-> FALSE]
-Init == l = 1 /\ fs = EmptyFs /\ objs = NoObjs /\ errloc = NoLoc /\ diverged = FALSE /\ gposts = <<>> /\ sec = FALSE /\ lw = NoWrite /\ unk = {}
-Globals == <<gposts, sec, lw, unk>>
+NoWrite == [path |-> <<>>, known |-> FALSE, d |-> 0, c |-> 0]
+Init == l = 1 /\ fs = EmptyFs /\ objs = NoObjs /\ errloc = NoLoc /\ diverged = FALSE /\ gposts = <<>> /\ sec = FALSE /\ lw = NoWrite /\ unk = {} /\ wt = EmptyFs
+Globals == <<gposts, sec, lw, unk, wt>>
 IsEvent(e) == l <= Len(Tr) /\ Tr[l].e = e /\ l' = l + 1
 Ev == Tr[l]
 Mismatch(what) == PrintT(ToJson([mismatch |-> l, spec |-> what]))
@@ -43,13 +46,17 @@ Known(h) == Live(h) /\ objs[h] # Opaque
 Has(f) == f \in DOMAIN Ev
 FsPut(f, p, lines) == [q \in DOMAIN f \cup {p} |-> IF q = p THEN lines ELSE f[q]]
 NormO(o) == IF o = <<>> THEN <<<<>>>> ELSE o
-
-TReset == IsEvent("reset") /\ fs' = EmptyFs /\ objs' = NoObjs /\ errloc' = NoLoc /\ diverged' = FALSE /\ gposts' = <<>> /\ sec' = FALSE /\ lw' = NoWrite /\ unk' = {}
-\* a file as it is on disk; `check`: the snapshot right after an econf_writeFile must show what the specification predicted
-TFile == /\ IsEvent("file") /\ fs' = FsPut(fs, Ev.path, Ev.lines) /\ UNCHANGED <<objs, errloc, gposts, sec>> /\ lw' = NoWrite /\ unk' = unk \ {Ev.path}
-         /\ IF Has("check") /\ Ev.check /\ lw.known /\ lw.path = Ev.path
-            THEN Check(fs[Ev.path] = Ev.lines, [written |-> fs[Ev.path]]) ELSE UNCHANGED diverged
 FsDrop(f, P) == [q \in DOMAIN f \ P |-> f[q]]
+
+TReset == IsEvent("reset") /\ fs' = EmptyFs /\ objs' = NoObjs /\ errloc' = NoLoc /\ diverged' = FALSE /\ gposts' = <<>> /\ sec' = FALSE /\ lw' = NoWrite /\ unk' = {} /\ wt' = EmptyFs
+\* a file as it is on disk; `check`: the snapshot right after an econf_writeFile must READ BACK like what the specification
+\* predicted (C07 promises the configuration, not the layout: blank lines, blanks around the delimiter are the writer's choice)
+SameConfig(a, b, d, c) == LET pa == ParseFile(a, ParOf(d, c))  pb == ParseFile(b, ParOf(d, c)) IN
+                          pa.err = pb.err /\ (pa.err = "ok" => RT(EntsOfParse(pa)) = RT(EntsOfParse(pb)))
+TFile == /\ IsEvent("file") /\ fs' = FsPut(fs, Ev.path, Ev.lines) /\ UNCHANGED <<objs, errloc, gposts, sec>> /\ lw' = NoWrite /\ unk' = unk \ {Ev.path}
+         /\ wt' = FsDrop(wt, {Ev.path})
+         /\ IF Has("check") /\ Ev.check /\ lw.known /\ lw.path = Ev.path
+            THEN Check(fs[Ev.path] = Ev.lines \/ SameConfig(fs[Ev.path], Ev.lines, lw.d, lw.c), [written |-> fs[Ev.path]]) ELSE UNCHANGED diverged
 TNoFile == IsEvent("nofile") /\ fs' = FsDrop(fs, {Ev.path}) /\ UNCHANGED <<objs, errloc, diverged, Globals>>
 TForget == IsEvent("forget") /\ fs' = FsDrop(fs, {q \in DOMAIN fs : IsPrefixOf(Ev.prefix, q)}) /\ UNCHANGED <<objs, errloc, diverged, Globals>>
 TNew == /\ IsEvent("new") /\ objs' = [objs EXCEPT ![Ev.h] = NewObject(Ev.d, Ev.c)]
@@ -61,6 +68,9 @@ TNewOpt == /\ IsEvent("newopt") /\ UNCHANGED <<fs, errloc, Globals>>
 \* while restrictions may be in force, or when the caller's callback refused a file, the outcome of a read is not predicted
 Unpredicted == sec \/ (Has("cb") /\ Ev.cb /\ Ev.rc = "ECONF_PARSING_CALLBACK_FAILED")
                \/ (IF Ev.e = "readfile" THEN Ev.path \in unk ELSE unk # {})       \* a file of unknown content may be consulted
+               \* a rendered file read with other characters than it was written with: what comes out depends on the layout
+               \/ (IF Ev.e = "readfile" THEN Ev.path \in DOMAIN wt /\ wt[Ev.path] # <<Ev.delim, Ev.comment>>
+                   ELSE \E q \in DOMAIN wt : wt[q] # <<Ev.delim, Ev.comment>>)
 AfterRead(h, obj) == IF h = 0 THEN objs ELSE [objs EXCEPT ![h] = obj]
 TReadFile == /\ IsEvent("readfile")
              /\ IF Unpredicted
@@ -142,15 +152,19 @@ TMerge == /\ IsEvent("merge") /\ UNCHANGED <<fs, errloc, Globals>>
              THEN objs' = (IF Ev.h = 0 THEN objs ELSE [objs EXCEPT ![Ev.h] = IF Ok(Ev.rc) THEN Opaque ELSE Null]) /\ UNCHANGED diverged
              ELSE /\ objs' = [objs EXCEPT ![Ev.h] = MergeObjects(objs[Ev.a], objs[Ev.b])]
                   /\ Check(Ok(Ev.rc), [rc |-> "ECONF_SUCCESS"])
+WriteInClass(h) == Known(h) /\ objs[h].d # 0 /\ objs[h].c # 0 /\ Unambiguous(objs[h], objs[h].d, objs[h].c)
 TWrite == /\ IsEvent("write") /\ UNCHANGED <<objs, errloc, gposts, sec>>
+          /\ wt' = IF Live(Ev.h) /\ Ok(Ev.rc) /\ Known(Ev.h) THEN FsPut(wt, Ev.path, <<<<objs[Ev.h].d>>, <<objs[Ev.h].c>>>>) ELSE FsDrop(wt, {Ev.path})
           \* (an object WITHOUT delimiter tag - an option object used as a plain object, a merge based on one - is written with NUL
           \* bytes in the delimiter's place: such a file is outside the conventional grammar, reads of it are not predicted)
-          /\ unk' = IF Live(Ev.h) /\ Ok(Ev.rc) /\ (~Known(Ev.h) \/ objs[Ev.h].d = 0) THEN unk \cup {Ev.path}
+          \* ... and an object outside the round-trip class of C07 (5.4) is written SOMEHOW: what reading that file gives
+          \* depends on the writer's layout, which no property fixes
+          /\ unk' = IF Live(Ev.h) /\ Ok(Ev.rc) /\ (~Known(Ev.h) \/ objs[Ev.h].d = 0 \/ ~WriteInClass(Ev.h)) THEN unk \cup {Ev.path}
                     ELSE IF Known(Ev.h) /\ Ok(Ev.rc) THEN unk \ {Ev.path} ELSE unk
           /\ IF ~Live(Ev.h) THEN UNCHANGED fs /\ lw' = NoWrite /\ Check(~Ok(Ev.rc), [refused |-> TRUE])
              ELSE IF ~Known(Ev.h) THEN fs' = (IF Ok(Ev.rc) THEN FsPut(fs, Ev.path, <<>>) ELSE fs) /\ lw' = NoWrite /\ UNCHANGED diverged
              ELSE IF Has("dir_ok") /\ ~Ev.dir_ok THEN UNCHANGED fs /\ lw' = NoWrite /\ Check(~Ok(Ev.rc), [refused |-> TRUE])     \* no such directory
-             ELSE /\ fs' = FsPut(fs, Ev.path, WriteLines(objs[Ev.h])) /\ lw' = [path |-> Ev.path, known |-> TRUE]
+             ELSE /\ fs' = FsPut(fs, Ev.path, WriteLines(objs[Ev.h])) /\ lw' = [path |-> Ev.path, known |-> WriteInClass(Ev.h), d |-> objs[Ev.h].d, c |-> objs[Ev.h].c]
                   /\ Check(Ok(Ev.rc), [rc |-> "ECONF_SUCCESS"])
 TFree == IsEvent("free") /\ objs' = (IF Ev.h = 0 THEN objs ELSE [objs EXCEPT ![Ev.h] = Null]) /\ UNCHANGED <<fs, errloc, Globals>> /\ Check(Ev.ret_null, [ret_null |-> TRUE])
 TDump == /\ IsEvent("dump") /\ UNCHANGED <<fs, objs, errloc, Globals>>
@@ -177,7 +191,10 @@ TExt == /\ IsEvent("ext") /\ UNCHANGED <<fs, objs, errloc, Globals>>
                 IF i = 0 THEN Check(~Ok(Ev.rc), [rc |-> "ECONF_NOKEY"])
                 ELSE IF o.path = <<>> \/ o.ents[i].line = 0 THEN UNCHANGED diverged      \* merged / built: not a parsed file's entry
                 ELSE LET w == ExtOf(o, i) IN
-                     Check(Ok(Ev.rc) /\ Ev.line = w.line /\ Ev.vals = w.vals /\ (o.opt.join \/ (Ev.cb = w.cb /\ Ev.ca = w.ca))
+                     \* (cmp_layout = FALSE: the entry stems from a file that econf_writeFile produced - line numbers there
+                     \* depend on the writer's layout, which no property fixes)
+                     Check(Ok(Ev.rc) /\ ((Has("cmp_layout") /\ ~Ev.cmp_layout) \/ Ev.line = w.line) /\ Ev.vals = w.vals
+                           /\ (o.opt.join \/ (Ev.cb = w.cb /\ Ev.ca = w.ca))
                            /\ ((Has("cmp_path") /\ ~Ev.cmp_path) \/ Ev.file = w.file), w)
 \* listings (C11): sections in order of first appearance, keys of one section in entry order; an absent / empty section: ECONF_NOKEY
 TKeys == /\ IsEvent("keys") /\ UNCHANGED <<fs, objs, errloc, Globals>>
@@ -195,9 +212,9 @@ TGroups == /\ IsEvent("groups") /\ UNCHANGED <<fs, objs, errloc, Globals>>
 \* econf_set_delimiter_tag / econf_set_comment_tag: what econf_writeFile will use
 TSetTag == /\ IsEvent("settag") /\ UNCHANGED <<fs, errloc, diverged, Globals>>
            /\ objs' = IF Known(Ev.h) THEN [objs EXCEPT ![Ev.h] = IF Ev.which = "d" THEN [@ EXCEPT !.d = Ev.tag] ELSE [@ EXCEPT !.c = Ev.tag]] ELSE objs
-TSetConfDirs == IsEvent("setconfdirs") /\ gposts' = Ev.dirs /\ UNCHANGED <<fs, objs, errloc, diverged, sec, lw, unk>>
-TSecFlag == IsEvent("secflag") /\ sec' = TRUE /\ UNCHANGED <<fs, objs, errloc, diverged, gposts, lw, unk>>
-TSecReset == IsEvent("secreset") /\ sec' = FALSE /\ UNCHANGED <<fs, objs, errloc, diverged, gposts, lw, unk>>
+TSetConfDirs == IsEvent("setconfdirs") /\ gposts' = Ev.dirs /\ UNCHANGED <<fs, objs, errloc, diverged, sec, lw, unk, wt>>
+TSecFlag == IsEvent("secflag") /\ sec' = TRUE /\ UNCHANGED <<fs, objs, errloc, diverged, gposts, lw, unk, wt>>
+TSecReset == IsEvent("secreset") /\ sec' = FALSE /\ UNCHANGED <<fs, objs, errloc, diverged, gposts, lw, unk, wt>>
 \* a call that is outside the modelled fragment: h (if any) is not predicted any more
 \* a call with a missing out-pointer / delimiter set must be refused and changes nothing
 TRefused == IsEvent("refused") /\ UNCHANGED <<fs, objs, errloc, Globals>> /\ Check(~Ok(Ev.rc), [refused |-> TRUE])
